@@ -7,7 +7,7 @@ from . import sem
 
 
 def programs(thorough, seed, rnd):
-    progs = Fam.operator_programs() + Fam.template_programs() + Fam.capture_programs() + Fam.lambda_programs()
+    progs = Fam.operator_programs() + Fam.template_programs() + Fam.capture_programs() + Fam.lambda_programs() + Fam.singleton_programs()
     progs += Fam.nestings(2, rnd, sample=250 if not thorough else 900)
     progs += Fam.random_programs(2500 if thorough else 400, seed)
     return progs
